@@ -4,10 +4,10 @@ package auctioneer
 
 import "github.com/lightninglabs/pool/auctioneerrpc"
 
-// VerifDigestNewClient builds a Client around an already connected RPC stub so
+// VerifC12NewClient builds a Client around an already connected RPC stub so
 // that the verification harness (C12) can run the real Client.SubmitOrder
 // against an in-process gRPC auctioneer.
-func VerifDigestNewClient(cfg *Config,
+func VerifC12NewClient(cfg *Config,
 	c auctioneerrpc.ChannelAuctioneerClient) *Client {
 
 	return &Client{cfg: cfg, client: c}
